@@ -78,6 +78,9 @@ def evaluate(case, out):
         counts = {c: sum(1 for s in case["cards"] if c in s) for c in cids}
         bound = {c: (case["contests"][c] if (case["contests"][c] is not None and us) else case["max_cards"]) for c in cids}
         try:
+            if len(cvrs) % 2 == 0:  # a preliminary export (the first cards only) was processed before
+                CVR.make_phantoms(audit=audit, contests=contests, cvr_list=cvrs[: len(cvrs) // 2], prefix="prelim-")
+                out.cls("after-an-earlier-call")
             res, n_ph = CVR.make_phantoms(audit=audit, contests=contests, cvr_list=cvrs, prefix=case["prefix"],
                                           tally_pool=case["tally_pool"], pool=case["pool"])
         except Exception as e:  # noqa
